@@ -39,6 +39,10 @@ func writeManifest() {
 			na = append(na, map[string]string{"property_id": id, "reason": reason})
 			continue
 		}
+		note := p.LevelNote
+		if p.ThoroughScale > 1 {
+			note += fmt.Sprintf(" The thorough tier multiplies every PRNG-determined case count named for it above by %d (exhaustive depths are unchanged).", p.ThoroughScale)
+		}
 		cmd := "cd /verif/harness && GOFLAGS=-mod=mod GOPROXY=off GOSUMDB=off GOTOOLCHAIN=local go run ./cmd/check -id " + id
 		checks = append(checks, map[string]any{
 			"property_id":         id,
@@ -48,7 +52,7 @@ func writeManifest() {
 			"replay_cmd_template": "cd /verif/harness && GOFLAGS=-mod=mod GOPROXY=off GOSUMDB=off GOTOOLCHAIN=local go run ./cmd/check -replay {path}",
 			"engine":              "verifharness",
 			"level_claimed":       map[string]string{"category": p.Level, "text": p.LevelText, "design_ref": p.DesignRef},
-			"level_note":          p.LevelNote,
+			"level_note":          note,
 			"technique":           p.Technique,
 		})
 	}
